@@ -701,7 +701,7 @@ def pretty_print_cell(i, cell, prefix="", force_header=False, config=DefaultConf
 
     exclude_keys = {
         'cell_type', 'source', 'execution_count', 'outputs', 'metadata',
-        'id', 'attachment',
+        'id', 'attachments',
     }
     if (set(cell) - exclude_keys) and config.details:
         # present anything we haven't special-cased yet (future-proofing)
